@@ -44,9 +44,9 @@ def boundary_cases():
     """deterministic matrix; each case carries 'cell' = limit/way/position"""
     out = []
 
-    def add(cell, script, stack=(), flags=STANDARD, svs=SVS, succ=b''):
+    def add(cell, script, stack=(), flags=STANDARD, svs=SVS, succ=b'', allow=False):
         for sv in svs:
-            out.append(dict(script=script, stack=list(stack), flags=flags, sv=sv, succ=succ, cell='%s/%s' % (cell, SVN[sv]), layer='limit'))
+            out.append(dict(script=script, stack=list(stack), flags=flags, sv=sv, succ=succ, cell='%s/%s' % (cell, SVN[sv]), layer='limit', allow=allow))
     # ---- 520-byte pushes
     for d in (-1, 0, 1):
         n = 520 + d
@@ -62,6 +62,14 @@ def boundary_cases():
         add('push520/unexecuted-branch-in-scriptPubKey/%s' % POS[d], bytes([OP_0]), succ=bytes([OP_IF]) + big + bytes([OP_DROP, OP_ENDIF, OP_1]), svs=[BASE])
         add('push520/executed-in-scriptPubKey/%s' % POS[d], bytes([OP_1]), succ=bytes([OP_IF]) + big + bytes([OP_DROP, OP_ENDIF, OP_1]), svs=[BASE])
         add('push520/unexecuted-else-in-scriptPubKey/%s' % POS[d], bytes([OP_1]), succ=bytes([OP_IF, OP_1, OP_ELSE]) + big + bytes([OP_ENDIF]), svs=[BASE])
+    # with --allow-disabled-opcodes OP_CAT is the one operation that builds longer elements out of shorter ones: its result is an
+    # element like any other (the original OP_CAT and BIP347 both refuse a result of more than 520 bytes)
+    for d in (-1, 0, 1):
+        n = 520 + d
+        add('push520/OP_CAT-result/260+%d/%s' % (n - 260, POS[d]), pushn(260) + pushn(n - 260, 0x62) + bytes([OP_CAT, OP_SIZE, OP_NIP]), allow=True, svs=[BASE, WITNESS_V0])
+        add('push520/OP_CAT-result/%d+1/%s' % (n - 1, POS[d]), pushn(n - 1) + pushn(1, 0x62) + bytes([OP_CAT, OP_SIZE, OP_NIP]), allow=True, svs=[BASE, WITNESS_V0])
+        add('push520/OP_CAT-result/empty+%d/%s' % (n if d < 1 else 520, POS[d]), bytes([OP_0]) + pushn(min(n, 520), 0x62) + bytes([OP_CAT, OP_SIZE, OP_NIP]), allow=True, svs=[BASE])
+    add('push520/OP_CAT-result/doubling/L+1', pushn(260) + bytes([OP_DUP, OP_CAT]) * 4 + bytes([OP_SIZE, OP_NIP]), allow=True, svs=[BASE])
     for d in (-1, 0, 1):
         n = 75 + d
         add('push-direct/%d' % n, (bytes([n]) if n <= 75 else bytes([OP_PUSHDATA1, n])) + b'y' * n)
@@ -117,6 +125,12 @@ def boundary_cases():
         # the limit applies to every script that is evaluated: also to a scriptPubKey reached after a scriptSig
         add('script10000/scriptPubKey/%s' % POS[d], bytes([OP_1]), succ=fill_to(n), svs=[BASE])
         add('script10000/scriptSig-before-small-scriptPubKey/%s' % POS[d], fill_to(n), succ=bytes([OP_1]), svs=[BASE])
+        # ... and to a P2SH redeem script: on the network it cannot be longer than one push (520 bytes), but the initial stack of
+        # a debugging session is given directly, so the size test of the redeem-script phase is the only thing that applies
+        red = fill_to(n)
+        add('script10000/p2sh-redeem-from-initial-stack/%s' % POS[d], bytes([OP_HASH160, 20]) + hash160(red) + bytes([OP_EQUAL]), stack=[red], svs=[BASE])
+        red2 = fill_to(n - 130, (push_only(b'q' * 40) + bytes([OP_DROP])) * 130)[:-0 or None]
+        add('script10000/p2sh-redeem-with-130-ops-from-initial-stack/%s' % POS[d], bytes([OP_HASH160, 20]) + hash160(red2) + bytes([OP_EQUAL]), stack=[b'\x01', red2], svs=[BASE])
     # ---- 4-byte numeric operands, 5-byte lock-time operands
     for n in (3, 4, 5):
         v = b'\x01' * n
@@ -292,14 +306,14 @@ def binary_worker(job):
         for i, c in enumerate(cells):
             if i % nchunks != idx:
                 continue
-            args = []
+            args = ['-z'] if c.get('allow') else []
             fs = c03.flagstr(c['flags'])
             if fs:
                 args.append('--modify-flags=' + fs)
             args += ['0x' + c['script'].hex()] + ['0x' + x.hex() for x in c['stack']]
             if sum(len(a) + 1 for a in args) > 120000:
                 continue
-            want = c08.ref_run(c['script'], c['stack'], c['flags'], BASE)
+            want = c08.ref_run(c['script'], c['stack'], c['flags'], BASE, allow_disabled=bool(c.get('allow')))
             r = proc.run([btcdeb] + args, wd, mode='ptyin', timeout=60)
             part.evaluations += 1
             part.count('binary_cells', c['cell'].split('/')[0])
